@@ -20,17 +20,11 @@ fn kv_time(clock: ClockId) -> ClockTime {
 	ClockTime { clock, ticks, fraction }
 }
 
-// @h prop=C19 tier=quick kind=main
-// @bounds ticks <= 2^53, fraction in [0,1), 0 <= x <= 2^53 (all f64 bit patterns in range)
-// @funcs <ClockTime as Add<f64>>::add
-// @catches carry computed from a different rounding than the fraction; fraction leaving [0,1)
-#[kani::proof]
-#[kani::unwind(3)]
-fn c19_clocktime_add_f64() {
+fn kv_add_f64_body(xmax: f64) {
 	let (id, _) = kv_clock_ids();
 	let t = kv_time(id);
 	let x: f64 = kani::any();
-	kani::assume(x >= 0.0 && x <= 9007199254740992.0);
+	kani::assume(x >= 0.0 && x <= xmax);
 	let r = t + x;
 	assert!(r.fraction >= 0.0 && r.fraction < 1.0, "fraction stays in [0,1)");
 	let s = t.fraction + x;
@@ -40,6 +34,21 @@ fn c19_clocktime_add_f64() {
 	kani::cover!(x > 0.0 && x < 1.0 && r.ticks == t.ticks + 1, "w:carry");
 	kani::cover!(x > 0.0 && r.ticks == t.ticks, "w:no-carry");
 }
+
+// @h prop=C19 tier=quick kind=main
+// @bounds ticks <= 2^53, fraction in [0,1), 0 <= x <= 65536 (all f64 bit patterns in range)
+// @funcs <ClockTime as Add<f64>>::add
+// @catches carry computed from a different rounding than the fraction; fraction leaving [0,1)
+#[kani::proof]
+#[kani::unwind(3)]
+fn c19_clocktime_add_f64() { kv_add_f64_body(65536.0); }
+
+// @h prop=C19 tier=thorough kind=main timeout=1700
+// @bounds as above with 0 <= x <= 2^53
+// @funcs <ClockTime as Add<f64>>::add
+#[kani::proof]
+#[kani::unwind(3)]
+fn c19_clocktime_add_f64_wide() { kv_add_f64_body(9007199254740992.0); }
 
 // @h prop=C19 tier=quick kind=main
 // @bounds ticks <= 2^53, fraction in [0,1), 0 <= x <= 2^53
@@ -61,18 +70,19 @@ fn c19_clocktime_sub_f64_range() {
 	kani::cover!(x > 2.0 && t.ticks == 1, "w:saturate");
 }
 
-// @h prop=C19 tier=quick kind=main timeout=280
-// @bounds ticks in [2^11, 2^40], fraction in [0,1), 0 <= x <= 1024; "to rounding" = the result, read as ticks+fraction, is within 2^-40 ticks of the exact value
+// @h prop=C19 tier=thorough kind=main timeout=1750
+// @bounds ticks in [2^11, 2^20], fraction in [0,1), 0 <= x <= 2 (all f64 bit patterns in range, incl. denormals); "to rounding" = the result, read as ticks+fraction, is within 2^-40 ticks of the exact value
 // @funcs <ClockTime as Sub<f64>>::sub
 // @catches F14: borrow and fraction derived from differently rounded expressions (off by one whole tick)
 #[kani::proof]
 #[kani::unwind(3)]
-fn c19_clocktime_sub_f64_consistent() {
+fn c19_clocktime_sub_f64_consistent() { kv_sub_consistent_body(2.0, 1u64 << 20); }
+fn kv_sub_consistent_body(xmax: f64, tmax: u64) {
 	let (id, _) = kv_clock_ids();
 	let t = kv_time(id);
 	let x: f64 = kani::any();
-	kani::assume(t.ticks >= 2048 && t.ticks <= (1u64 << 40));
-	kani::assume(x >= 0.0 && x <= 1024.0);
+	kani::assume(t.ticks >= 2048 && t.ticks <= tmax);
+	kani::assume(x >= 0.0 && x <= xmax);
 	let r = t - x;
 	// exact reference: split x into whole and fractional parts (both exact in f64)
 	let xw = x.trunc();
@@ -90,18 +100,19 @@ fn c19_clocktime_sub_f64_consistent() {
 	kani::cover!(ok_up, "w:rounds-up-to-next-tick");
 }
 
-// @h prop=C19 tier=quick kind=main timeout=280
-// @bounds ticks <= 2^40, fraction in [0,1), 0 <= x <= 1024; round trip (t + x) - x
+// @h prop=C19 tier=thorough kind=main timeout=1750
+// @bounds ticks <= 2^20, fraction in [0,1), 0 <= x <= 2 (all f64 bit patterns in range); round trip (t + x) - x
 // @funcs <ClockTime as Add<f64>>::add, <ClockTime as Sub<f64>>::sub
 // @catches F14: (648, 1-2^-53) + 5.1e-15 - 5.1e-15 = (648, 0.0)
 #[kani::proof]
 #[kani::unwind(3)]
-fn c19_clocktime_add_sub_roundtrip() {
+fn c19_clocktime_add_sub_roundtrip() { kv_roundtrip_body(2.0, 1u64 << 20); }
+fn kv_roundtrip_body(xmax: f64, tmax: u64) {
 	let (id, _) = kv_clock_ids();
 	let t = kv_time(id);
 	let x: f64 = kani::any();
-	kani::assume(t.ticks <= (1u64 << 40));
-	kani::assume(x >= 0.0 && x <= 1024.0);
+	kani::assume(t.ticks <= tmax);
+	kani::assume(x >= 0.0 && x <= xmax);
 	let r = (t + x) - x;
 	let eps = 9.094947017729282e-13; // 2^-40
 	let ok_same = r.ticks == t.ticks && (r.fraction - t.fraction).abs() <= eps;
@@ -177,4 +188,62 @@ fn c19_clocktime_from_ticks() {
 	let u = ClockTime::from_ticks_u64(id, n);
 	assert!(u.ticks == n && u.fraction == 0.0);
 	kani::cover!(t.fraction > 0.0 && t.ticks > 3, "w:fractional");
+}
+
+// @h prop=C19 tier=thorough kind=main timeout=1750
+// @bounds ticks in [2^11, 2^40], fraction in [0,1), 0 <= x <= 1024
+// @funcs <ClockTime as Sub<f64>>::sub
+#[kani::proof]
+#[kani::unwind(3)]
+fn c19_clocktime_sub_f64_consistent_wide() { kv_sub_consistent_body(1024.0, 1u64 << 40); }
+
+// @h prop=C19 tier=thorough kind=main timeout=1750
+// @bounds ticks <= 2^40, fraction in [0,1), 0 <= x <= 1024
+// @funcs <ClockTime as Add<f64>>::add, <ClockTime as Sub<f64>>::sub
+#[kani::proof]
+#[kani::unwind(3)]
+fn c19_clocktime_add_sub_roundtrip_wide() { kv_roundtrip_body(1024.0, 1u64 << 40); }
+
+// @h prop=C19 tier=quick kind=main
+// @bounds ticks in [1, 2^53], fraction in [0,1), 0 <= x <= 1/2 (all f64 bit patterns incl. denormals): the result is never a whole tick away from where it should be
+// @funcs <ClockTime as Sub<f64>>::sub
+// @catches F14: borrow and fraction derived from differently rounded expressions, e.g. (5,0.0) - 1e-20 = (4,0.0)
+#[kani::proof]
+#[kani::unwind(3)]
+fn c19_clocktime_sub_small_no_tick_error() {
+	let (id, _) = kv_clock_ids();
+	let t = kv_time(id);
+	let x: f64 = kani::any();
+	kani::assume(t.ticks >= 1);
+	kani::assume(x >= 0.0 && x <= 0.5);
+	let r = t - x;
+	// subtracting at most half a tick: either no borrow (fraction went down) or one borrow and the
+	// fraction landed in the upper half
+	let no_borrow = r.ticks == t.ticks && r.fraction <= t.fraction;
+	let one_borrow = r.ticks + 1 == t.ticks && r.fraction >= 0.5 && r.fraction >= t.fraction;
+	assert!(no_borrow || one_borrow, "t - x (x <= 1/2) is within half a tick below t");
+	if x <= t.fraction { assert!(no_borrow); }
+	kani::cover!(one_borrow, "w:borrow");
+	kani::cover!(no_borrow && x > 0.0, "w:no-borrow");
+}
+
+// @h prop=C19 tier=thorough kind=main timeout=1750
+// @bounds ticks <= 2^53, fraction in [0,1), 0 <= x <= 1/2: (t + x) - x is t, or the same instant written on the other side of a tick boundary (fraction within 2^-40 of it)
+// @funcs <ClockTime as Add<f64>>::add, <ClockTime as Sub<f64>>::sub
+// @catches F14: (648, 1-2^-53) + 5.1e-15 - 5.1e-15 = (648, 0.0), a whole tick early
+#[kani::proof]
+#[kani::unwind(3)]
+fn c19_clocktime_roundtrip_small_no_tick_error() {
+	let (id, _) = kv_clock_ids();
+	let t = kv_time(id);
+	let x: f64 = kani::any();
+	kani::assume(x >= 0.0 && x <= 0.5);
+	let r = (t + x) - x;
+	let eps = 9.094947017729282e-13; // 2^-40
+	let same = r.ticks == t.ticks && r.fraction <= t.fraction + eps && t.fraction <= r.fraction + eps;
+	let up = r.ticks == t.ticks + 1 && r.fraction <= eps && t.fraction >= 1.0 - eps;
+	let down = r.ticks + 1 == t.ticks && t.fraction <= eps && r.fraction >= 1.0 - eps;
+	assert!(same || up || down, "(t + x) - x returns t to rounding");
+	kani::cover!(same && x > 0.25, "w:same");
+	kani::cover!(up, "w:other-side-of-boundary");
 }
